@@ -90,7 +90,7 @@ theorem refine_callsC (P : Program) (nm : List String → String) (O : Oracle) (
           = [STree.sub c.id (ci.getD (false, [])).1 (ci.getD (false, [])).2
               (ci.isSome && !(ci.getD (false, [])).2.isEmpty &&
                 splitsStaticT st self sib (P.insOf c.callee) c (ci.getD (false, [])) && c.disabled.isNone &&
-                noMergeOf c.id r.1.exp) r.2] ++
+                pushOk c.id (ci.getD (false, [])).1 r.1.exp) r.2] ++
             (staticCallsT st P.insOf node path self cs
               (sib ++ [(c.id, unrolledOutputsT c (ci.getD (false, [])) r.1.exp)]) []).2 := by
         simp only [staticCallsT, hm, if_true, hr, hci, hrt, Bool.false_eq_true, if_false]
@@ -103,6 +103,7 @@ theorem refine_callsC (P : Program) (nm : List String → String) (O : Oracle) (
       obtain ⟨⟨⟨⟨⟨⟨hsome, hnonempty⟩, hss⟩, _⟩, hnmg⟩, habove⟩, htreeR⟩ := htree1
       obtain ⟨hix1, hfacts⟩ := mapped_factsT st hst F hF ρ P (Agree forks) env self sib hrel f0 hf0 c hmapped'
         (ci.getD (false, [])) hss
+      rw [hix1] at hnmg
       generalize hixs : (ci.getD (false, [])).2 = ixs at *
       have hne : ixs ≠ [] := by
         intro e; rw [e] at hnonempty; simp at hnonempty
@@ -156,14 +157,14 @@ theorem refine_callsC (P : Program) (nm : List String → String) (O : Oracle) (
         apply List.map_congr_left
         intro ix hix
         obtain ⟨k, rfl⟩ := hallI ix hix
-        rw [(pushFork_evalRT st hst F ρ hρ c.id k r.1.exp _ f (hchild _ hix).2.1 hnmg).1]
+        rw [(pushFork_evalRT st hst F ρ hρ c.id (.i k) false trivial r.1.exp _ f (hchild _ hix).2.1 hnmg).1]
         exact (hchild _ hix).1 _ (hf.fset c.id (.i k) habove)
       have htyR : HasTyR st ⟨c.callee, 0, 1⟩ (.arr (ixs.map fun ix => pushFork c.id ix r.1.exp)) := by
         simp only [HasTyR]
         refine ⟨by simp, HasTyRList_map st _ _ _ ?_⟩
         intro ix hix
         obtain ⟨k, rfl⟩ := hallI ix hix
-        exact (pushFork_evalRT st hst F ρ hρ c.id k r.1.exp _ [] (hchild _ hix).2.1 hnmg).2
+        exact (pushFork_evalRT st hst F ρ hρ c.id (.i k) false trivial r.1.exp _ [] (hchild _ hix).2.1 hnmg).2
       have hrel' := envRel_stepC st F ρ (Agree forks) env self sib hrel c.id ⟨c.callee, 0, 1⟩ _
         ⟨.arr (ixs.map fun ix => pushFork c.id ix r.1.exp), ⟨c.callee, 0, 1⟩⟩ hv htyR
       have hty : callTyM c = ⟨c.callee, 0, 1⟩ := by simp [callTyM, hm]
@@ -171,7 +172,7 @@ theorem refine_callsC (P : Program) (nm : List String → String) (O : Oracle) (
             (run c.callee (path ++ [c.id]) (forks ++ [(c.id, ix)])
               (mkArgs st F (argVals st env (P.insOf c.callee) c) (some ix))).2)
           = instsTList st F ρ forks f [STree.sub c.id false ixs
-              (ci.isSome && !ixs.isEmpty && splitsStaticT st self sib (P.insOf c.callee) c (false, ixs) && c.disabled.isNone && noMergeOf c.id r.1.exp) r.2] := by
+              (ci.isSome && !ixs.isEmpty && splitsStaticT st self sib (P.insOf c.callee) c (false, ixs) && c.disabled.isNone && pushOk c.id false r.1.exp) r.2] := by
         intro f hf
         simp only [instsTList, instsT, List.append_nil]
         apply flatMap_congr_mem
@@ -182,7 +183,7 @@ theorem refine_callsC (P : Program) (nm : List String → String) (O : Oracle) (
             (run c.callee (path ++ [c.id]) (forks ++ [(c.id, ix)])
               (mkArgs st F (argVals st env (P.insOf c.callee) c) (some ix))).2))
         (sacc ++ [STree.sub c.id false ixs
-              (ci.isSome && !ixs.isEmpty && splitsStaticT st self sib (P.insOf c.callee) c (false, ixs) && c.disabled.isNone && noMergeOf c.id r.1.exp) r.2])
+              (ci.isSome && !ixs.isEmpty && splitsStaticT st self sib (P.insOf c.callee) c (false, ixs) && c.disabled.isNone && pushOk c.id false r.1.exp) r.2])
         hrel' hsT (by rw [← hty]; simpa [typesOf] using hcs)
         (fun f hf => by rw [hacc f hf, hinst f hf, instsTList_append]) ⟨f0, hf0⟩
         (fun n hn => hstore n (by rw [hixsP, hout]; simp [hn]))
